@@ -2,7 +2,7 @@
 
 PROP = dict(
     level="proof",
-    lean_modules=["PopsModel.Props.C07"],
+    lean_modules=["PopsModel.Props.C07", "PopsModel.Props.NonVacuous.Calendar"],
     theorems=["Pops.C07_valid", "Pops.C07_increasing", "Pops.C07_order", "Pops.C07_tiles",
               "Pops.C07_partition", "Pops.C07_day_steps"],
     commands=["date.*", "sched", "lookup", "unit"],
